@@ -579,6 +579,7 @@ def stepProvCore (d : ProvDrv) (a : Acc) (s : Step) : ProvDrv × Acc :=
     let a := a.spec s.lineNo "C07.frame" (Spec.C07.frame x e ok st.stk stkA) s!"before={before.g.get "stk"} after={after.g.get "stk"}"
     let a := a.spec s.lineNo "C07.tombstoned-never-again" (Spec.C07.tombstonedNeverAgain st.stk effs)
     let a := a.spec s.lineNo "C07.rejected-changes-nothing" (ok || (after.cs.all fun e2 => e2.2 == (before.cfields e2.1)))
+    let a := a.spec s.lineNo "C07.valid-is-punished" (Spec.C07.validIsPunished x st.stk e ok) s!"{repr e}"
     let a := if ok then { (a.tag "dvote-accepted") with nontrivial := a.nontrivial + 1 }
              else if Spec.C07.validFor x e then a.tag "dvote-valid-but-unpunishable"
              else if !Equiv.basicOK e then a.tag "dvote-rejected-basic" else a.tag "dvote-rejected"
@@ -592,7 +593,7 @@ def stepProvCore (d : ProvDrv) (a : Acc) (s : Step) : ProvDrv × Acc :=
     let m : Equiv.Misb :=
       { client := if s.op.get "client" == "own" then x.client.getD "07-tendermint-9999" else s.op.get "client",
         h1 := parseHdr (s.op.get "h1") vals (parseNatList (o.get "order1")),
-        h2 := parseHdr (s.op.get "h2") vals (parseNatList (o.get "order2")),
+        h2 := parseHdr (s.op.get "h2") (if s.op.has "vals2" then s.op.pairs "vals2" else vals) (parseNatList (o.get "order2")),
         th := s.op.nat "th",
         tvals := (parseNatList (o.get "torder")).filterMap fun k => tv.find? (·.1 == k) }
     let env : Equiv.ClientEnv :=
@@ -665,6 +666,20 @@ def stepProvCore (d : ProvDrv) (a : Acc) (s : Step) : ProvDrv × Acc :=
         (splitNE (s.op.get "hops") ",") connOf
     let a := (a.tag (if okM then "chantry-ok" else "chantry-rejected")).cmp s.lineNo "chantry.res" (if okM then "ok" else "err") res
     let a := if okM then { a with nontrivial := a.nontrivial + 1 } else a
+    -- C17: whatever the implementation ACCEPTS is an ordered channel between the provider and consumer
+    -- ports with the supported version, one hop, on a tendermint client bound to a channel-less consumer
+    let a := if s.op.name == "chantry" then
+        a.spec s.lineNo "C17.try-accept-only-if"
+          (res != "ok" ||
+            (s.op.get "order" == "ORDERED" && s.op.get "port" == "provider" && s.op.get "cport" == "consumer" &&
+             s.op.get "ver" == "1" &&
+             (match splitNE (s.op.get "hops") "," with
+              | [h] => (match connOf h with
+                | some ci => ci.isTM && (st.client2c.any fun e => e.1 == ci.client && (st.get e.2).channel.isNone)
+                | none => false)
+              | _ => false)))
+          s!"order={s.op.get "order"} port={s.op.get "port"} cport={s.op.get "cport"} ver='{s.op.get "ver"}' hops={s.op.get "hops"}"
+      else a.spec s.lineNo "C17.provider-never-initiates" (res != "ok")
     ({ impl := after }, compareState a s.lineNo st after lifecycleFields lifecycleGlobals)
   | "chanconfirm" =>
     let connOf := fun (h : String) =>
